@@ -88,7 +88,11 @@ class PickyTensor(ir.Tensor):
 def small_tensor(w: World, a: int, name=None):
     arr = np.arange((a % 3) + 1, dtype=np.float32) + (a % 5)
     kind = (a // 15) % 5
-    if kind == 3:
+    if (a // 7) % 23 == 11:
+        # a lazily loaded constant declared with a symbolic dimension (the declared shape is not checked against the
+        # data): size / nbytes of such a tensor cannot be computed, and repr() of a value holding it raises
+        t = ir.LazyTensor(lambda arr=arr, name=name: ir.Tensor(arr, name=name), dtype=ir.DataType.FLOAT, shape=ir.Shape(["N"]), name=name)
+    elif kind == 3:
         # protobuf-backed tensor, as in every deserialized model: its name setter validates
         import onnx
 
